@@ -10,6 +10,8 @@ pub enum Want {
     Rejected(&'static [&'static str]),
     /// stops with this runtime error kind (`error_kind`)
     RuntimeError(&'static str),
+    /// either rejected with a diagnostic, or accepted and prints exactly this (never a crash, never another output)
+    RejectedOrOut(&'static str),
     /// anything but a crash of the compiler / VM (accepted-and-runs or rejected)
     NoCrash,
 }
@@ -41,6 +43,8 @@ pub fn run_probes(ctx: &mut Ctx, probes: &[Probe]) {
             (Want::Out(s), Outcome::Done) => r.out == *s,
             (Want::Rejected(subs), Outcome::Rejected(t)) => subs.iter().all(|s| t.contains(s)),
             (Want::RuntimeError(k), Outcome::Error(e)) => e == k,
+            (Want::RejectedOrOut(_), Outcome::Rejected(_)) => true,
+            (Want::RejectedOrOut(s), Outcome::Done) => r.out == *s,
             (Want::NoCrash, Outcome::Done) | (Want::NoCrash, Outcome::Rejected(_)) | (Want::NoCrash, Outcome::Error(_)) => true,
             _ => false,
         };
@@ -50,6 +54,7 @@ pub fn run_probes(ctx: &mut Ctx, probes: &[Probe]) {
                 Want::Out(s) => format!("run and print {s:?}"),
                 Want::Rejected(subs) => format!("be rejected with diagnostics containing {subs:?}"),
                 Want::RuntimeError(k) => format!("stop with the runtime error {k}"),
+                Want::RejectedOrOut(s) => format!("be rejected with a diagnostic, or run and print {s:?}"),
                 Want::NoCrash => "be accepted or rejected, without a crash".to_string(),
             };
             let mut text = format!("probe {}: the program must {want}; it {got}\n--- main.abra\n{}", p.name, p.main);
